@@ -1846,12 +1846,16 @@ theorem lds_readFragLoop_err {σ} (hook : ObjHook σ) (req : ReadReq) (fuel : Na
     | ok raw =>
       dsimp only at h
       split at h
-      · cases h
+      · split at h
+        · next he => cases h; exact .inr (.inr ⟨_, he⟩)
+        · cases h
       · split at h
         · exact ih _ _ _ _ _ _ h
         · split at h
-          · split at h <;> cases h
-          · cases h
+          · next he => cases h; exact .inr (.inr ⟨_, he⟩)
+          · split at h
+            · split at h <;> cases h
+            · cases h
 
 theorem lds_multiRead_err (l : List (ReadReq × Option Bytes)) :
     ∀ (rs : Results) (e : Exn), multiReadResults rs l = .error e → ∃ r : Resp, r.error = .error e := by
